@@ -14,6 +14,7 @@ import (
 	"math"
 	"sort"
 	"strconv"
+	"sync/atomic"
 	"time"
 
 	"github.com/tsuna/gohbase/hrpc"
@@ -317,7 +318,10 @@ func (c *client) SendBatch(ctx context.Context, batch []hrpc.Call) (
 		// for their responses in the same order.
 		cAndRs := make([]clientAndRPCs, 0, len(rpcByClient))
 		for client, rpcs := range rpcByClient {
-			client.QueueBatch(ctx, rpcs)
+			// the queue of a region client may be full for a long time
+			queueCtx, stop := untilCallsDone(ctx, rpcs)
+			client.QueueBatch(queueCtx, rpcs)
+			stop()
 			cAndRs = append(cAndRs, clientAndRPCs{client, rpcs})
 		}
 
@@ -361,8 +365,16 @@ func (c *client) SendBatch(ctx context.Context, batch []hrpc.Call) (
 		if needBackoff {
 			sp.AddEvent("retrySleep")
 			var err error
-			backoff, err = sleepAndIncreaseBackoffOrClosed(ctx, c.done, backoff)
+			sleepCtx, stop := untilCallsDone(ctx, retries)
+			backoff, err = sleepAndIncreaseBackoffOrClosed(sleepCtx, c.done, backoff)
+			stop()
 			if err != nil {
+				for _, rpc := range retries {
+					if cerr := rpc.Context().Err(); cerr != nil && ctx.Err() == nil {
+						// given up by its caller while waiting to be retried
+						res[rpcToRes[rpc]] = hrpc.RPCResult{Error: cerr}
+					}
+				}
 				break
 			}
 		} else {
@@ -381,6 +393,34 @@ func (c *client) SendBatch(ctx context.Context, batch []hrpc.Call) (
 	}
 
 	return res, allOK
+}
+
+// untilCallsDone returns a context that is done when ctx is, and also
+// once the context of every one of rpcs is done: nobody is waiting for
+// any of them anymore then. stop releases its resources.
+func untilCallsDone(ctx context.Context, rpcs []hrpc.Call) (context.Context, func()) {
+	for _, rpc := range rpcs {
+		if done := rpc.Context().Done(); done == nil || done == ctx.Done() {
+			// this call is waited for as long as the batch is
+			return ctx, func() {}
+		}
+	}
+	callsCtx, cancel := context.WithCancel(ctx)
+	remaining := int32(len(rpcs))
+	stops := make([]func() bool, len(rpcs))
+	for i, rpc := range rpcs {
+		stops[i] = context.AfterFunc(rpc.Context(), func() {
+			if atomic.AddInt32(&remaining, -1) == 0 {
+				cancel()
+			}
+		})
+	}
+	return callsCtx, func() {
+		for _, stop := range stops {
+			stop()
+		}
+		cancel()
+	}
 }
 
 // findClients takes a batch of rpcs and discovers the region and
